@@ -7,6 +7,7 @@ import (
 	"fmt"
 	"go/ast"
 	"go/token"
+	"go/types"
 	"math/big"
 	"os"
 	"os/exec"
@@ -97,6 +98,7 @@ type harnessDecl struct {
 	AssertMs   int
 	ExactMs    int
 	BranchMs   int
+	FullFeasMs int
 	Unwind     int
 	MaxSteps   int64
 	MaxPaths   int
@@ -145,6 +147,8 @@ func parseDirectives(fd *ast.FuncDecl) *harnessDecl {
 			h.ExactMs = atoi()
 		case "branch-ms":
 			h.BranchMs = atoi()
+		case "full-feas-ms":
+			h.FullFeasMs = atoi()
 		case "unwind":
 			h.Unwind = atoi()
 		case "max-steps":
@@ -265,6 +269,10 @@ func (c *Config) makeSpecs(l *loaded, findings map[string]bool) ([]*symx.Harness
 		if d.BranchMs > 0 {
 			s.BranchMs = d.BranchMs
 		}
+		s.FullFeasMs = 300
+		if d.FullFeasMs != 0 {
+			s.FullFeasMs = d.FullFeasMs
+		}
 		if d.Unwind > 0 {
 			s.Unwind = d.Unwind
 		}
@@ -284,6 +292,17 @@ func (c *Config) makeSpecs(l *loaded, findings map[string]bool) ([]*symx.Harness
 				return nil, nil, fmt.Errorf("%s: summarised function %q does not exist in the current tree", d.Name, target)
 			}
 			s.Summaries[target] = sf
+			// the value- and pointer-receiver forms of a method are the same source function: SSA calls
+			// whichever the call site needs, so both names are replaced (the contract must not use the receiver)
+			if strings.HasPrefix(target, "(*") {
+				if alt := "(" + target[2:]; functionExists(l.prog, alt) {
+					s.Summaries[alt] = sf
+				}
+			} else if strings.HasPrefix(target, "(") {
+				if alt := "(*" + target[1:]; functionExists(l.prog, alt) {
+					s.Summaries[alt] = sf
+				}
+			}
 		}
 		specs = append(specs, s)
 		decls[d.Name] = d
@@ -571,6 +590,22 @@ func runCheck(c *Config) int {
 			"assert_instances": na, "discharged": nd, "covers": r.Covers, "aborts": r.Aborts, "panics_escaping": r.Panics,
 			"solver_s": round2(r.SolverTime.Seconds()), "mode": d.Mode, "bounds": d.Bounds, "assumes": d.Assumes, "doc": strings.TrimSpace(d.Doc)}
 		harnessRows = append(harnessRows, row)
+		if c.Verbose && len(r.ForkSites) > 0 {
+			type kv struct {
+				k string
+				v int
+			}
+			var l []kv
+			for k, v := range r.ForkSites {
+				l = append(l, kv{k, v})
+			}
+			sort.Slice(l, func(i, j int) bool { return l[i].v > l[j].v })
+			for i, e := range l {
+				if i < 12 {
+					fmt.Printf("      forks %6d  %s\n", e.v, e.k)
+				}
+			}
+		}
 		if c.Verbose {
 			fmt.Printf("  %-40s paths=%d completed=%d asserts=%d/%d queries=%d solver=%.1fs aborts=%v panics=%v covers=%v\n", r.Spec.Name, r.Paths, r.Completed, nd, na, r.Queries, r.SolverTime.Seconds(), r.Aborts, r.Panics, r.Covers)
 		}
@@ -1020,6 +1055,77 @@ func listFuncs(c *Config, pat string) int {
 	sort.Strings(names)
 	for _, n := range names {
 		fmt.Println(n)
+	}
+	return 0
+}
+
+
+// ndSource is a source of replica divergence found in the SSA of the Elys packages.
+type ndSource struct {
+	Kind string `json:"kind"`
+	Func string `json:"function"`
+	Pos  string `json:"pos"`
+}
+
+// ndSources enumerates, from the SSA of every non-test Elys package in the loaded
+// closure, the constructs whose result may differ between replicas: range over a
+// map, time.Now, math/rand, os.Getenv, go statements, select.
+func ndSources(c *Config, l *loaded) []ndSource {
+	var out []ndSource
+	for f := range ssautil.AllFunctions(l.prog) {
+		pk := f.Pkg
+		if pk == nil && f.Origin() != nil {
+			pk = f.Origin().Pkg
+		}
+		if pk == nil || !strings.HasPrefix(pk.Pkg.Path(), elys+"/x/") {
+			continue
+		}
+		file := l.prog.Fset.Position(f.Pos()).Filename
+		if strings.HasSuffix(file, ".pb.go") || strings.HasSuffix(file, ".pb.gw.go") || strings.HasSuffix(file, "_test.go") ||
+			strings.Contains(file, "/client/") || strings.Contains(file, "/simulation/") || strings.Contains(file, "/migrations/") {
+			continue
+		}
+		for _, b := range f.Blocks {
+			for _, in := range b.Instrs {
+				add := func(kind string) {
+					out = append(out, ndSource{kind, f.String(), strings.TrimPrefix(l.prog.Fset.Position(in.Pos()).String(), c.Repo+"/")})
+				}
+				switch in := in.(type) {
+				case *ssa.Range:
+					if _, ok := in.X.Type().Underlying().(*types.Map); ok {
+						add("range over map")
+					}
+				case *ssa.Go:
+					add("go statement")
+				case *ssa.Select:
+					add("select")
+				case ssa.CallInstruction:
+					if cf := in.Common().StaticCallee(); cf != nil {
+						switch n := cf.String(); {
+						case n == "time.Now" || n == "time.Since":
+							add("wall clock (" + n + ")")
+						case strings.HasPrefix(n, "math/rand.") || strings.HasPrefix(n, "crypto/rand."):
+							add("randomness (" + n + ")")
+						case n == "os.Getenv" || n == "os.LookupEnv":
+							add("environment (" + n + ")")
+						}
+					}
+				}
+			}
+		}
+	}
+	sort.Slice(out, func(i, j int) bool { return out[i].Pos < out[j].Pos })
+	return out
+}
+
+func listSources(c *Config) int {
+	l, err := load(c)
+	if err != nil {
+		fmt.Println(err)
+		return 2
+	}
+	for _, s := range ndSources(c, l) {
+		fmt.Printf("%-28s %-90s %s\n", s.Kind, s.Func, s.Pos)
 	}
 	return 0
 }
